@@ -143,6 +143,14 @@ def raised_in_asynq(e):
     return None
 
 
+def safe_text(e):
+    """str(e) of an exception raised by the code under test may itself raise (its message may render a broken object)"""
+    try:
+        return str(e)
+    except BaseException as e2:
+        return "<str() of this exception raised %s>" % type(e2).__name__
+
+
 def safe_check(sub, case, ctx):
     try:
         viol = sub.check(case, ctx)
@@ -150,7 +158,7 @@ def safe_check(sub, case, ctx):
         where = raised_in_asynq(e)
         if where is None:
             raise              # a defect of the harness itself: exit 2, never a VIOLATION
-        viol = [("%s.unexpected:%s" % (ctx.prop, type(e).__name__), "asynq raised %s: %s at %s, which the property's oracle does not allow here" % (type(e).__name__, str(e)[:200], where))]
+        viol = [("%s.unexpected:%s" % (ctx.prop, type(e).__name__), "asynq raised %s: %s at %s, which the property's oracle does not allow here" % (type(e).__name__, safe_text(e)[:200], where))]
     return [(s, m) for (s, m) in viol]
 
 
